@@ -8,6 +8,14 @@ use std::sync::Arc;
 use crate::storage::skiplist::SkipList;
 use crate::storage::stream::Stream;
 
+/// Deadline `expires_in` after `now`. `Instant + Duration` panics on overflow, and the duration
+/// comes straight from a client (SET k v EX 9223372036854775807): a time-to-live too long to
+/// represent is capped about a hundred years out instead of taking the server down.
+pub fn deadline_after(now: Instant, expires_in: Duration) -> Instant {
+    now.checked_add(expires_in)
+        .unwrap_or_else(|| now + Duration::from_secs(100 * 365 * 24 * 60 * 60))
+}
+
 /// All possible Redis value types
 #[derive(Debug, Clone)]
 pub enum Value {
@@ -164,7 +172,7 @@ impl ValueMetadata {
     pub fn with_expiration(expires_in: Duration) -> Self {
         let now = Instant::now();
         ValueMetadata {
-            expires_at: Some(now + expires_in),
+            expires_at: Some(deadline_after(now, expires_in)),
             created_at: now,
             last_accessed: now,
             encoding: StringEncoding::Raw,
@@ -185,7 +193,7 @@ impl ValueMetadata {
     
     /// Set expiration time
     pub fn set_expiration(&mut self, expires_in: Duration) {
-        self.expires_at = Some(Instant::now() + expires_in);
+        self.expires_at = Some(deadline_after(Instant::now(), expires_in));
     }
     
     /// Clear expiration
